@@ -158,7 +158,9 @@ def roundtrip_case(draw):
         s[name] = [q["m"][i] for q in quads]
     s["moment_kind"] = "estimator"
     return {"spec": s, "N": draw(st.one_of(st.sampled_from([8, 12, 24, 36, 60]), st.integers(8, 180))),
-            "variant": draw(st.integers(0, 3))}
+            "variant": draw(st.integers(0, 3)),
+            # the same object converted again after its densities were replaced in place
+            "reconvert_after": draw(st.sampled_from([None, "multiply_inplace", "setitem", "dataset_assignment"]))}
 
 
 def run_roundtrip(c):
@@ -196,7 +198,32 @@ def run_roundtrip(c):
     Dn = E.reshape(a["n"], nf, N)[pos] / e0[pos][:, None]
     if Dn.size:
         check_distribution(Dn, N, f"spectrum method={method}/{sm}")
-    return {"nontrivial": bool(pos.any()), "classes": [f"variant_{method}_{sm}", "layout_" + sc["layout"]]}
+    classes = [f"variant_{method}_{sm}", "layout_" + sc["layout"]]
+    mode = c.get("reconvert_after")
+    if mode:
+        # convert, replace the densities of the SAME object in place through the public API, convert again with the same
+        # settings: the second 2D spectrum must integrate back to the current e(f), not to the one converted before
+        w = 1.0 + np.arange(nf) % 3                       # 1, 2, 3, 1, ... per frequency
+        if mode == "multiply_inplace":
+            spec.multiply(w, ["frequency"], inplace=True)
+        elif mode == "setitem":
+            spec["variance_density"] = spec.variance_density * xarray_like(spec, w)
+        else:
+            spec.dataset["variance_density"] = spec.dataset["variance_density"] * xarray_like(spec, w)
+        s3 = spec.as_frequency_direction_spectrum(N, **kw)
+        e3 = np.asarray(s3.e.values, dtype=float).reshape(a["n"], nf)
+        e_now = e0 * w[None, :]
+        ok3 = O.close(e3, e_now, rel=1e-9, abs_=1e-300)
+        require(ok3.all(), "roundtrip_preserves_e",
+                lambda: f"second conversion of the same object after {mode}: method={method}/{sm} got={e3[~ok3][:3]} "
+                        f"current e={e_now[~ok3][:3]}")
+        classes.append("converted_again_after_" + mode)
+    return {"nontrivial": bool(pos.any()), "classes": classes}
+
+
+def xarray_like(spec, w):
+    import xarray
+    return xarray.DataArray(np.asarray(w, dtype=float), dims=("frequency",), coords={"frequency": spec.frequency.values})
 
 
 def run_every_n(c):
